@@ -286,12 +286,32 @@ func c25CoqString(s string) string {
 
 func init() {
 	genFiles["C25MapRanges.v"] = func() string {
+		// type-checking the tree (and the declarations of its dependencies) from source costs tens of
+		// seconds; the result is a function of the sources only, so it is memoised by their hash
+		root := repoRoot()
+		hh := sha256.New()
+		for _, rel := range append([]string{"."}, c25Packages...) {
+			dir := filepath.Join(root, rel)
+			names := c25SourceFiles(dir)
+			if rel == "." {
+				names = []string{filepath.Join(root, "go.mod")}
+			}
+			for _, f := range names {
+				b, _ := os.ReadFile(f)
+				fmt.Fprintf(hh, "%s %d\n", strings.TrimPrefix(f, root), len(b))
+				hh.Write(b)
+			}
+		}
+		cache := filepath.Join(os.TempDir(), fmt.Sprintf("c25-inventory-v1-%x.v", hh.Sum(nil)[:12]))
+		if old, err := os.ReadFile(cache); err == nil && strings.HasSuffix(string(old), "].\n") {
+			return string(old)
+		}
 		var b strings.Builder
 		b.WriteString("(* GENERATED by d2h gen (harness/c25_inventory.go) from the d2 source tree: every `range` over a map-typed\n   expression in the render path.  Do not edit. *)\n")
 		b.WriteString("From Coq Require Import List String.\nImport ListNotations.\nOpen Scope string_scope.\n")
 		b.WriteString("(* file, function, ordinal of the map range within the function, ranged expression, kind, hash of the statement *)\n")
 		b.WriteString("Definition map_ranges : list (string * string * nat * string * string * string) := [\n")
-		sites := c25Inventory(repoRoot())
+		sites := c25Inventory(root)
 		for i, s := range sites {
 			fmt.Fprintf(&b, "  (%s, %s, %d, %s, %s, %s)", c25CoqString(s.File), c25CoqString(s.Func), s.Ordinal, c25CoqString(s.Expr), c25CoqString(s.Kind), c25CoqString(s.Hash))
 			if i+1 < len(sites) {
@@ -300,6 +320,10 @@ func init() {
 			b.WriteString("\n")
 		}
 		b.WriteString("].\n")
+		tmp := cache + fmt.Sprintf(".%d", os.Getpid())
+		if os.WriteFile(tmp, []byte(b.String()), 0o644) == nil {
+			os.Rename(tmp, cache)
+		}
 		return b.String()
 	}
 }
